@@ -212,8 +212,54 @@ class Simplifier(pysmt.walkers.DagWalker):
             return self.manager.Bool(l == r)
         elif sl == sr:
             return self.manager.TRUE()
+        elif sl.is_array_value() and sr.is_array_value() and \
+             sl.is_constant() and sr.is_constant():
+            eq = self._constant_arrays_equal(sl, sr)
+            if eq is not None:
+                return self.manager.Bool(eq)
+            return self.manager.Equals(sl, sr)
         else:
             return self.manager.Equals(sl, sr)
+
+    def _constant_arrays_equal(self, left: FNode, right: FNode) -> Optional[bool]:
+        """Decides the equality of two constant array values.
+
+        Returns None if the equality cannot be decided (index sort of
+        unknown cardinality).
+        """
+        def values_equal(a: FNode, b: FNode) -> Optional[bool]:
+            if a.is_array_value() and b.is_array_value():
+                return self._constant_arrays_equal(a, b)
+            return a == b
+
+        lmap = left.array_value_assigned_values_map()
+        rmap = right.array_value_assigned_values_map()
+        keys = set(lmap) | set(rmap)
+        undecided = False
+        for k in keys:
+            eq = values_equal(left.array_value_get(k), right.array_value_get(k))
+            if eq is None:
+                undecided = True
+            elif not eq:
+                return False
+        idx_type = left.array_value_index_type()
+        if idx_type.is_bool_type():
+            all_assigned = len(keys) >= 2
+        elif idx_type.is_bv_type():
+            all_assigned = len(keys) >= 2**cast(types._BVType, idx_type).width
+        elif idx_type.is_int_type() or idx_type.is_real_type() or \
+             idx_type.is_string_type():
+            all_assigned = False
+        else:
+            return None
+        if not all_assigned:
+            eq = values_equal(left.array_value_default(),
+                              right.array_value_default())
+            if eq is None:
+                undecided = True
+            elif not eq:
+                return False
+        return None if undecided else True
 
     def walk_ite(self, formula: FNode, args: List[FNode], **kwargs) -> FNode:
         assert len(args) == 3
